@@ -184,6 +184,18 @@ TickOut(S) ==
 ExpireOut(S, a) ==
     {Outc((S \ {l}) \cup {[l EXCEPT !.rem = 0]}, None) : l \in {x \in On(S, a) : ~x.st /\ x.rem > 0}}
 
+\* ------------------------------------------------- ended address conflict
+\* Before offering an address the server may probe it (ICMP echo); an address
+\* that answers is put aside for one lease time under the hardware address
+\* of nobody (Blk) and without a name.  The harness cannot make an address
+\* answer, so only the aftermath is modelled: the entry of an address nobody
+\* holds becomes the record that such a conflict leaves behind once its time
+\* is over -- an expired, nameless entry of nobody, reusable like any other.
+Blk == "blk"
+BlockEndOut(S, a) ==
+    {Outc((S \ {l}) \cup {[l EXCEPT !.mac = Blk, !.host = ""]}, None)
+     : l \in {x \in On(S, a) : ~x.st /\ x.rem = 0 /\ x.mac # Blk}}
+
 \* ------------------------------------------------------------- reservations
 Statics(S) == {l \in S : l.st}
 
@@ -271,6 +283,7 @@ Decline(m, a)         == \E o \in DeclineOut(ls, m, a) : Take(o)
 Release(m, a)         == \E o \in ReleaseOut(ls, m, a) : Take(o)
 Tick                  == \E o \in TickOut(ls) : Take(o)
 Expire(a)             == \E o \in ExpireOut(ls, a) : Take(o)
+BlockEnd(a)           == \E o \in BlockEndOut(ls, a) : Take(o)
 AddStatic(m, a, h)    == /\ Cardinality(Statics(ls)) < MaxStatic
                          /\ \E o \in AddStaticOut(ls, m, a, h) : Take(o)
 \* (model bound: turning a dynamic lease into a reservation counts as adding)
@@ -293,6 +306,7 @@ Next == \/ \E m \in Macs : Discover(m)
         \/ \E m \in Macs, a \in ReqAddrs : Release(m, a)
         \/ Tick
         \/ \E a \in Pool : Expire(a)
+        \/ \E a \in Pool : BlockEnd(a)
         \/ \E m \in Macs, a \in StatAddrs, h \in StaticHosts : AddStatic(m, a, h)
         \/ \E m \in Macs, a \in StatAddrs, h \in StaticHosts : UpdateStatic(m, a, h)
         \/ \E m \in Macs, a \in ReqAddrs : RemoveStatic(m, a)
@@ -323,7 +337,7 @@ NoReuseBeforeAnnouncedExpiry ==
 RemoveKeepsHeldDynamic ==
     \A l \in ls : ~l.st /\ Held(l) => \A o \in RemoveStatic4Out(ls, l.mac, l.ip) : l \in o.dst
 \* "and a client holds at most one lease"
-OneLeasePerClient == \A l1, l2 \in ls : l1.mac = l2.mac => l1 = l2
+OneLeasePerClient == \A l1, l2 \in ls : l1.mac = l2.mac /\ l1.mac # Blk => l1 = l2
 \* "dynamic addresses lie inside the configured pool and never coincide with
 \* a static reservation or the gateway"
 DynamicInsidePool ==
@@ -382,6 +396,7 @@ Edges(S, D) ==
     \cup UNION {E(S, "Release", m, "", a, "", ReleaseOut(S, m, a), {AnyR}) : m \in Macs, a \in ReqAddrs}
     \cup E(S, "Tick", "", "", 0, "", TickOut(S), {None})
     \cup UNION {E(S, "Expire", "", "", a, "", ExpireOut(S, a), {None}) : a \in Pool}
+    \cup UNION {E(S, "BlockEnd", "", "", a, "", BlockEndOut(S, a), {None}) : a \in Pool}
     \cup (IF Cardinality(Statics(S)) < MaxStatic
           THEN UNION {E(S, "AddStatic", m, "", a, h, AddStaticOut(S, m, a, h), {Err})
                       : m \in Macs, a \in StatAddrs, h \in StaticHosts}
